@@ -185,6 +185,7 @@ def mon_c03(cases):
 def mon_c04(cases):
     for ci, c in enumerate(cases):
         ctx = Ctx(c)
+        born_bad = set()      # intermediate keys a FAULTED operation stored under a system key that was already expired (finding DUP, form b)
         for i, (op, ob) in enumerate(zip(c["ops"], c["obs"])):
             ctx.feed(op, ob)
             if op["k"] != "encrypt":
@@ -193,6 +194,10 @@ def mon_c04(cases):
             p = ctx.pol(sid)
             t = ob["now"]
             if op.get("faults"):
+                for e in ev_list(ob):
+                    a = e.get("a") or []
+                    if e["k"] == "MStore" and hx(a[0]).startswith("_IK_") and a[2] is not None and a[3] * SEC + p["Expire"] < t:
+                        born_bad.add((a[0], a[1]))
                 continue          # the property is conditional on the metastore accepting writes
             for e in ev_list(ob):
                 a = e.get("a") or []
@@ -205,7 +210,8 @@ def mon_c04(cases):
                 yield dict(what="record names an intermediate key older than the key lifetime", case=ci, op=i, finding=None)
             ikp = ob.get("ikparent")
             if ikp and ikp[1] * SEC + p["Expire"] + p["RCI"] < t:
-                f = "C04-IK" if finding_ik(c, ctx, i, sid, ob["pid"], ob["pc"], t, p["RCI"]) else ("C04-DUP" if finding_dup(ob, ob["pid"]) else None)
+                f = "C04-IK" if finding_ik(c, ctx, i, sid, ob["pid"], ob["pc"], t, p["RCI"]) else (
+                    "C04-DUP" if finding_dup(ob, ob["pid"]) or (ob["pid"], ob["pc"]) in born_bad else None)
                 yield dict(what="intermediate key still used more than one revoke-check interval after its system key expired", case=ci, op=i, finding=f)
 
 
@@ -215,8 +221,16 @@ def mon_c05(cases):
         revs = c.get("revs") or []
         recs = c.get("recs") or []
         parents = []          # per successful encrypt: (IK id, IK created), (SK id, SK created)
+        born_bad = set()      # intermediate keys a FAULTED operation stored under a system key revoked more than two intervals before
         for i, (op, ob) in enumerate(zip(c["ops"], c["obs"])):
             ctx.feed(op, ob)
+            if op["k"] == "encrypt" and op.get("faults"):
+                pf = ctx.pol(op.get("s", 0))
+                for e in ev_list(ob):
+                    a = e.get("a") or []
+                    if e["k"] == "MStore" and hx(a[0]).startswith("_IK_") and a[2] is not None and any(
+                            rv["id"] == a[2] and rv["created"] == a[3] and ob["now"] > rv["at"] + 2 * pf["RCI"] for rv in revs):
+                        born_bad.add((a[0], a[1]))
             if op["k"] == "encrypt" and ob["r"] == "enc":
                 parents.append(((ob["pid"], ob["pc"]), tuple(ob.get("ikparent") or ())))
             # "Records written under the revoked key remain decryptable"
@@ -241,7 +255,8 @@ def mon_c05(cases):
                     yield dict(what="record written under an intermediate key revoked more than one interval ago", case=ci, op=i, finding=f)
                 ikp = ob.get("ikparent")
                 if ikp and rv["id"] == ikp[0] and rv["created"] == ikp[1] and t > rv["at"] + 2 * p["RCI"] and stamp > ikp[1] and stamp > ob["pc"]:
-                    f = "C05-IK" if finding_ik(c, ctx, i, sid, ob["pid"], ob["pc"], t, p["RCI"]) else ("C05-DUP" if finding_dup(ob, ob["pid"]) else None)
+                    f = "C05-IK" if finding_ik(c, ctx, i, sid, ob["pid"], ob["pc"], t, p["RCI"]) else (
+                        "C05-DUP" if finding_dup(ob, ob["pid"]) or (ob["pid"], ob["pc"]) in born_bad else None)
                     yield dict(what="record written under an intermediate key whose system key was revoked more than two intervals ago", case=ci, op=i, finding=f)
 
 
